@@ -231,6 +231,21 @@ CHECKS = {
          "category types)",
          "runtime differential monitoring against the generating image",
          "4 C17"),
+ "C12": ("exploration",
+         "The real send path runs on a virtual-time event loop with a fake "
+         "transport; client tasks issue requests with unique ids in the "
+         "address fields (sizes up to and beyond the frame limit, bursts "
+         "above 15 datagrams, seeded start order, cancellations at four "
+         "points); the transport delays, loses, duplicates and reorders "
+         "frames and sets per-datagram working counters; a history checker "
+         "over call / enqueue / frame / return events decides sent-once, "
+         "submission order, own bytes, error iff own counter 0, pending iff "
+         "frame lost, independence of neighbours, and a logical-step "
+         "watchdog detects a send loop that spins without yielding.",
+         "FIFO scheduling of ready callbacks is kept; interleavings come "
+         "from seeded delays, not from permuting the ready queue",
+         "offline history checker with unique ids over recorded events + "
+         "logical-step stall detector", "4 C12"),
 }
 
 NOT_YET = "check not built yet in this round (design in DESIGN.md section 4)"
